@@ -4,24 +4,28 @@ import Csverif.Proofs.HCache.Fuel
 namespace CS.HCache
 open CS.Path
 set_option linter.unusedSimpArgs false
+set_option linter.unusedVariables false
 
-/-- `__insert_node` from `self.delete(path=path)` on (218-229) -/
-def insertRest (c : Cfg) (i : Nat) (path : Str) (par : Nat) : M Unit := do
+/-- `__insert_node`: eviction of the previous owners of the path and of the id (210-212) -/
+def insertPre (c : Cfg) (i : Nat) (path : Str) : M Unit := do
   delete c none (some path)
   let s ← getS
   (if truthy (s.nd i).oid then delete c (s.nd i).oid none else pure ())
+
+/-- `__insert_node` from `parent_node.add_child(node)` on (224-231) -/
+def insertRest (c : Cfg) (i : Nat) (par : Nat) : M Unit := do
   addChild par i
   let w ← walkM c i
   reindex c (w.map (·.1))
 
-/-- the part of `__insert_node` after the parent has been determined (213-229) -/
-def insertTail (c : Cfg) (i : Nat) (path name : Str) (par : Nat) : M Unit := do
+/-- the part of `__insert_node` after the parent has been determined (219-231) -/
+def insertTail (c : Cfg) (i : Nat) (name : Str) (par : Nat) : M Unit := do
   modS (fun s => s.setNd i { s.nd i with name := name })
   if par = i then raise .assertion else
     modS (fun s => s.setNd i { s.nd i with parent := some par })
-    insertRest c i path par
+    insertRest c i par
 
-/-- the parent lookup / auto-creation of `__insert_node` (208-211) -/
+/-- the parent lookup / auto-creation of `__insert_node` (214-217) -/
 def ensurePar (c : Cfg) (f : Nat) (pp : Str) : M Nat := do
   let pn ← getNodeM c none (some pp)
   let s ← getS
@@ -31,66 +35,69 @@ def ensurePar (c : Cfg) (f : Nat) (pp : Str) : M Nat := do
 
 theorem insertNode_succ (c : Cfg) (f i : Nat) (path : Str) :
     insertNode c (f + 1) i path = (do
+      insertPre c i path
       let par ← ensurePar c f (hsplit c path).1
-      insertTail c i path (hsplit c path).2 par) := by
+      insertTail c i (hsplit c path).2 par) := by
   funext s
-  simp only [insertNode, ensurePar, insertTail, bind_run, getNodeM_run, getS_run]
-  cases getNode c s none (some (hsplit c path).1) with
-  | error e => rfl
-  | ok pn =>
-    simp only
-    cases pn with
-    | none => rfl
-    | some p => rfl
-set_option linter.unusedVariables false
+  simp only [insertNode, insertPre, ensurePar, insertTail, insertRest, bind_run, getNodeM_run, getS_run]
+  cases delete c none (some path) s with
+  | mk s1 r1 =>
+    cases r1 with
+    | error e => rfl
+    | ok _ =>
+      simp only
+      cases (if truthy (s1.nd i).oid then delete c (s1.nd i).oid none else pure ()) s1 with
+      | mk s2 r2 =>
+        cases r2 with
+        | error e => rfl
+        | ok _ =>
+          simp only
+          cases getNode c s2 none (some (hsplit c path).1) with
+          | error e => rfl
+          | ok pn =>
+            cases pn with
+            | none => rfl
+            | some p => rfl
 
 /-- the state after `node.name = name; node.wr_parent = ref(parent)` -/
 def labelSt (s : HC) (i : Nat) (a : Str) (j : Nat) : HC :=
   (s.setNd i { s.nd i with name := a }).setNd i { (s.setNd i { s.nd i with name := a }).nd i with parent := some j }
 
-theorem insertTail_run (c : Cfg) (i : Nat) (path name : Str) (par : Nat) (s : HC) :
-    insertTail c i path name par s =
+
+theorem insertTail_run (c : Cfg) (i : Nat) (name : Str) (par : Nat) (s : HC) :
+    insertTail c i name par s =
       if par = i then (s.setNd i { s.nd i with name := name }, .error .assertion) else
-        insertRest c i path par (labelSt s i name par) := by
+        insertRest c i par (labelSt s i name par) := by
   simp only [insertTail, bind_run, modS_run, labelSt]
   by_cases hp : par = i
   · simp [hp]
   · simp only [hp, if_false, bind_run, modS_run]
 
-theorem insertRest_run (c : Cfg) (i : Nat) (path : Str) (par : Nat) (s2 : HC) :
-    insertRest c i path par s2 =
-        match delete c none (some path) s2 with
-        | (s3, .error e) => (s3, .error e)
-        | (s3, .ok _) =>
-          match (if truthy (s3.nd i).oid then delete c (s3.nd i).oid none else pure ()) s3 with
-          | (s4, .error e) => (s4, .error e)
-          | (s4, .ok _) =>
-            match addChild par i s4 with
-            | (s5, .error e) => (s5, .error e)
-            | (s5, .ok _) =>
-              match walk c s5 i with
-              | .error e => (s5, .error e)
-              | .ok w => reindex c (w.map (·.1)) s5 := by
+theorem insertRest_run (c : Cfg) (i : Nat) (par : Nat) (s4 : HC) :
+    insertRest c i par s4 =
+      match addChild par i s4 with
+      | (s5, .error e) => (s5, .error e)
+      | (s5, .ok _) =>
+        match walk c s5 i with
+        | .error e => (s5, .error e)
+        | .ok w => reindex c (w.map (·.1)) s5 := by
   simp only [insertRest, bind_run]
-  cases delete c none (some path) s2 with
-  | mk s3 r3 =>
-    cases r3 with
+  cases addChild par i s4 with
+  | mk s5 r5 =>
+    cases r5 with
     | error e => rfl
     | ok _ =>
-      simp only [getS_run]
-      cases (if truthy (s3.nd i).oid then delete c (s3.nd i).oid none else pure ()) s3 with
-      | mk s4 r4 =>
-        cases r4 with
-        | error e => rfl
-        | ok _ =>
-          simp only
-          cases addChild par i s4 with
-          | mk s5 r5 =>
-            cases r5 with
-            | error e => rfl
-            | ok _ =>
-              simp only [walkM_run]
-              cases walk c s5 i <;> rfl
+      simp only [walkM_run]
+      cases walk c s5 i <;> rfl
+
+theorem insertPre_run (c : Cfg) (i : Nat) (path : Str) (s : HC) :
+    insertPre c i path s =
+      match delete c none (some path) s with
+      | (s1, .error e) => (s1, .error e)
+      | (s1, .ok _) => (if truthy (s1.nd i).oid then delete c (s1.nd i).oid none else pure ()) s1 := by
+  simp only [insertPre, bind_run, getS_run]
+  cases delete c none (some path) s with
+  | mk s1 r1 => cases r1 <;> rfl
 
 theorem addChild_run (par ch : Nat) (s : HC) :
     addChild par ch s =
@@ -105,78 +112,6 @@ theorem addChild_run (par ch : Nat) (s : HC) :
     · by_cases h3 : (s.nd par).type = .dir
       · simp [addChild, bind_run, check, h1, h2, h3]
       · simp [addChild, bind_run, check, h1, h2, h3]
-
-/-! ### the id guard along the parent chain -/
-
-/-- no node on the existing part of the chain to `ks` (any prefix, `ks` included) holds the id `o` -/
-def ChainFree (s : HC) (o : Oid) (ks : List Str) : Prop :=
-  ∀ q, q <+: ks → ∀ m, res s q = some m → (s.nd m).oid ≠ some o
-
-/-- every node on the chain to `ks` in `s'` was there in `s` with the same id, or has no id -/
-def ChainKeep (s s' : HC) (ks : List Str) : Prop :=
-  ∀ q, q <+: ks → ∀ m, res s' q = some m →
-    (res s q = some m ∧ (s'.nd m).oid = (s.nd m).oid) ∨ (s'.nd m).oid = none
-
-theorem ChainFree.keep {s s' : HC} {o : Oid} {ks : List Str} (h : ChainFree s o ks) (hk : ChainKeep s s' ks) :
-    ChainFree s' o ks := by
-  intro q hq m hm
-  rcases hk q hq m hm with ⟨h1, h2⟩ | h1
-  · rw [h2]; exact h q hq m h1
-  · rw [h1]; simp
-
-theorem ChainKeep.refl (s : HC) (ks : List Str) : ChainKeep s s ks := fun _ _ _ h => Or.inl ⟨h, rfl⟩
-
-theorem ChainKeep.trans {s s1 s2 : HC} {ks : List Str} (h1 : ChainKeep s s1 ks) (h2 : ChainKeep s1 s2 ks) :
-    ChainKeep s s2 ks := by
-  intro q hq m hm
-  rcases h2 q hq m hm with ⟨a, b⟩ | a
-  · rcases h1 q hq m a with ⟨a', b'⟩ | a'
-    · exact Or.inl ⟨a', b.trans b'⟩
-    · exact Or.inr (b.trans a')
-  · exact Or.inr a
-
-theorem ChainKeep.prefix {s s' : HC} {ks ks' : List Str} (h : ChainKeep s s' ks) (hp : ks' <+: ks) : ChainKeep s s' ks' :=
-  fun q hq => h q (hq.trans hp)
-
-/-- the executable guard `ancFree` decides `ChainFree` -/
-theorem ancFree_from (s : HC) (o : Oid) : ∀ (ks : List Str) (n : Nat),
-    ancFree s o n ks = true ↔ ∀ q, q <+: ks → ∀ m, resFrom s n q = some m → (s.nd m).oid ≠ some o := by
-  intro ks
-  induction ks with
-  | nil =>
-    intro n
-    simp only [ancFree, decide_eq_true_eq, List.prefix_nil]
-    constructor
-    · intro h q hq m hm; subst hq; simp [resFrom] at hm; subst hm; exact h
-    · intro h; exact h [] rfl n rfl
-  | cons k ks ih =>
-    intro n
-    simp only [ancFree, Bool.and_eq_true, decide_eq_true_eq]
-    constructor
-    · rintro ⟨h1, h2⟩ q hq m hm
-      cases q with
-      | nil => simp [resFrom] at hm; subst hm; exact h1
-      | cons k' q' =>
-        have hk : k' = k ∧ q' <+: ks := by simpa using hq
-        obtain ⟨rfl, hq'⟩ := hk
-        simp only [resFrom] at hm
-        cases hd : dget (s.nd n).children k' with
-        | none => simp [hd] at hm
-        | some ch =>
-          simp only [hd] at hm h2
-          exact (ih ch).1 h2 q' hq' m hm
-    · intro h
-      refine ⟨h [] (List.nil_prefix) n rfl, ?_⟩
-      cases hd : dget (s.nd n).children k with
-      | none => rfl
-      | some ch =>
-        simp only
-        apply (ih ch).2
-        intro q hq m hm
-        exact h (k :: q) (by simpa using hq) m (by simp [resFrom, hd, hm])
-
-theorem ancFree_iff (s : HC) (o : Oid) (ks : List Str) : ancFree s o 0 ks = true ↔ ChainFree s o ks :=
-  ancFree_from s o ks 0
 
 /-! ### the core of `__insert_node` -/
 
@@ -203,12 +138,6 @@ theorem frameX (h : Stage c s init a j i t) : FrameX s t (InSub s i) :=
   ⟨Nat.le_of_eq h.len.symm,
    fun m _ hr hE => h.frame m hr (fun e => hE ⟨[], by rw [e]; rfl⟩),
    fun m _ hm => Or.inl (h.reach_old hm), fun e he => Or.inl (h.idsub e he)⟩
-
-theorem chainKeep (h : Stage c s init a j i t) (hi : ¬ Reach s i) (ks : List Str) : ChainKeep s t ks := by
-  intro q _ m hm
-  have hs := h.shrink q m hm
-  have : m ≠ i := fun e => hi (e ▸ ⟨q, hs⟩)
-  exact Or.inl ⟨hs, (h.fields m this).2⟩
 
 theorem del (h : Stage c s init a j i t) {t' : HC} (hd : DelPost c t t') (hj' : res t' init = some j) :
     Stage c s init a j i t' := by
@@ -283,28 +212,122 @@ theorem walkNodes_path_irrel (c : Cfg) (s : HC) : ∀ (f n : Nat) (p p' : Option
       · exact ih _ _ _
       · rfl
 
+/-- after a successful `delete(oid=o)` nothing holds the id `o` any more -/
+theorem delete_oid_gone {c : Cfg} (g : CfgGood c) {s : HC} (hc : Coherent c s) {o : Oid} (h0 : o ≠ 0)
+    (hroot : (s.nd 0).oid ≠ some o) {s1 : HC} {r : Except Err Unit} (hrun : delete c (some o) none s = (s1, r))
+    (hok : r = .ok ()) : dget s1.idmap o = none := by
+  have hd := delete_spec g s (some o) none hc
+  rw [hrun] at hd
+  obtain ⟨e1, e2, e3, e4⟩ := hd
+  simp only at e1 e2 e3 e4
+  obtain ⟨x, hx, hx1, hx2⟩ := hc.getNode_oid o none
+  cases hg : dget s1.idmap o with
+  | none => rfl
+  | some m =>
+    exfalso
+    have hm := e1.coh.dget_idmap.1 hg
+    have hm0 : Reach s m := e1.reach hm.1
+    have ho0 : (s.nd m).oid = some o := by rw [← (e1.fields m).2.1]; exact hm.2.1
+    have hxm := hx2 h0 m hm0 ho0
+    subst hxm
+    obtain ⟨km, hkm⟩ := hm0
+    have hmne : m ≠ 0 := fun e => hroot (e ▸ ho0)
+    have hgone := (e2 m km hx hkm).2.1 hok hmne
+    obtain ⟨q, hq⟩ := hm.1
+    rcases e1.shrink q with h | h
+    · rw [h] at hq; simp at hq
+    · rw [h] at hq
+      have := hc.res_inj hq hkm
+      subst this
+      rw [hgone q (List.prefix_refl _)] at h
+      rw [hkm] at h; simp at h
+
+/-- the eviction phase of `__insert_node`: afterwards nothing resolves at the target and nothing holds
+    the node's id -/
+theorem insertPre_spec {c : Cfg} (g : CfgGood c) {s : HC} {i : Nat} {ks : List Str} (hk : KsOk c ks) (hne : ks ≠ [])
+    (hc : Coherent c s) (hsub : Sub c s i)
+    (hroot : ∀ o, (s.nd i).oid = some o → o ≠ 0 → (s.nd 0).oid ≠ some o) :
+    ∀ out, insertPre c i (canon c.sep ks) s = out →
+      DelPost c s out.1 ∧ out.2 = .ok () ∧ res out.1 ks = none ∧
+      (∀ o, (s.nd i).oid = some o → o ≠ 0 → dget out.1.idmap o = none) := by
+  intro out hout
+  rw [insertPre_run] at hout
+  have hi : ¬ Reach s i := hsub.unreach [] i rfl
+  have hd := delete_spec g s none (some (canon c.sep ks)) hc
+  have htot := delete_total g hc none (some (canon c.sep ks)) (Or.inr rfl)
+  have hlook := getNode_canon g s hk
+  cases hrun1 : delete c none (some (canon c.sep ks)) s with
+  | mk s1 r1 =>
+    rw [hrun1] at hd hout htot
+    simp only at htot
+    subst htot
+    obtain ⟨d1, d2, d3, _⟩ := hd
+    simp only at d1 d2 d3 hout
+    have hnone1 : res s1 ks = none := by
+      cases hx : res s ks with
+      | none => rw [d3 (fun x hx' => by rw [hlook, hx] at hx'; simp at hx')]; exact hx
+      | some x =>
+        have hx0 : x ≠ 0 := by
+          intro e; subst e
+          exact hne (hc.res_root hx)
+        exact (d2 x _ (by rw [hlook, hx]) hx).2.1 trivial hx0 _ (List.prefix_refl _)
+    have hndi : s1.nd i = s.nd i := d1.frame i hi
+    by_cases ht : truthy (s1.nd i).oid = true
+    · rw [if_pos ht] at hout
+      cases ho : (s1.nd i).oid with
+      | none => rw [ho] at ht; simp [truthy] at ht
+      | some o =>
+        have h0 : o ≠ 0 := by intro e; subst e; rw [ho] at ht; simp [truthy] at ht
+        rw [ho] at hout
+        have ho' : (s.nd i).oid = some o := by rw [← hndi]; exact ho
+        have hr1 : (s1.nd 0).oid ≠ some o := by rw [(d1.fields 0).2.1]; exact hroot o ho' h0
+        have hd' := (delete_spec g s1 (some o) none d1.coh).1
+        have htot' := delete_total g d1.coh (some o) none (Or.inl rfl)
+        cases hrun2 : delete c (some o) none s1 with
+        | mk s2 r2 =>
+          rw [hrun2] at hd' htot' hout
+          simp only at hd' htot'
+          subst htot'
+          subst hout
+          refine ⟨d1.trans hd', rfl, ?_, fun o' ho'' h0' => ?_⟩
+          · rcases hd'.shrink ks with a | a
+            · exact a
+            · rw [a]; exact hnone1
+          · rw [ho'] at ho''; cases ho''
+            exact delete_oid_gone g d1.coh h0 hr1 hrun2 rfl
+    · rw [if_neg ht] at hout
+      subst hout
+      refine ⟨d1, rfl, hnone1, fun o ho h0 => ?_⟩
+      exfalso; apply ht
+      rw [hndi, ho]
+      cases o with
+      | zero => exact absurd rfl h0
+      | succ k => rfl
+
 /-- what `insertTail` guarantees whatever its outcome -/
-structure CorePost (c : Cfg) (s : HC) (init : List Str) (i : Nat) (s' : HC) : Prop where
+structure CorePost (c : Cfg) (s : HC) (init : List Str) (a : Str) (i : Nat) (s' : HC) : Prop where
   coh : Coherent c s'
   frameX : FrameX s s' (InSub s i)
-  chain : ChainKeep s s' init
   fi : (s'.nd i).oid = (s.nd i).oid ∧ (s'.nd i).type = (s.nd i).type
-  shrink : ∀ q m, res s' q = some m → res s q = some m ∨ InSub s i m
+  shrink : ∀ q m, res s' q = some m → res s q = some m ∨ ∃ r, q = init ++ [a] ++ r ∧ resFrom s i r = some m
   oid_same : ∀ m, (s'.nd m).oid = (s.nd m).oid
 
 theorem Stage.corePost {c : Cfg} {s : HC} {init : List Str} {a : Str} {j i : Nat} {t : HC}
-    (h : Stage c s init a j i t) (hi : ¬ Reach s i) : CorePost c s init i t :=
-  ⟨h.coh, h.frameX, h.chainKeep hi init, by rw [h.ndi]; exact ⟨rfl, rfl⟩, fun q m hm => Or.inl (h.shrink q m hm),
+    (h : Stage c s init a j i t) (hi : ¬ Reach s i) : CorePost c s init a i t :=
+  ⟨h.coh, h.frameX, by rw [h.ndi]; exact ⟨rfl, rfl⟩, fun q m hm => Or.inl (h.shrink q m hm),
    fun m => by
     by_cases e : m = i
     · subst e; rw [h.ndi]
     · exact (h.fields m e).2⟩
 
+/-- **linking a detached subtree under its parent and re-indexing it** (the part of `__insert_node`
+    after the parent is known): nothing resolves at the target yet and the node's id is free -/
 theorem insertTail_spec {c : Cfg} (g : CfgGood c) {s : HC} {init : List Str} {a : Str} {j i : Nat}
     (hc : Coherent c s) (hsub : Sub c s i) (hk : KsOk c (init ++ [a])) (hj : res s init = some j)
-    (hfree : ∀ o, (s.nd i).oid = some o → o ≠ 0 → ChainFree s o init) :
-    ∀ out, insertTail c i (canon c.sep (init ++ [a])) a j s = out →
-    CorePost c s init i out.1 ∧
+    (hnone : res s (init ++ [a]) = none)
+    (hfresh : ∀ o, (s.nd i).oid = some o → o ≠ 0 → dget s.idmap o = none) :
+    ∀ out, insertTail c i a j s = out →
+    CorePost c s init a i out.1 ∧
       (out.2 = .ok () → res out.1 (init ++ [a]) = some i ∧ ∀ q, resFrom out.1 i q = resFrom s i q) ∧
       out.2 ≠ .error .fuel := by
   intro out hout
@@ -313,253 +336,153 @@ theorem insertTail_spec {c : Cfg} (g : CfgGood c) {s : HC} {init : List Str} {a 
   have hinit : ¬ (init ++ [a]) <+: init := fun h => by have := h.length_le; simp at this; omega
   rw [insertTail_run, if_neg hji, insertRest_run] at hout
   have st2 : Stage c s init a j i (labelSt s i a j) := Stage.start hc hsub hj
-  -- delete(path=path)
-  have hd := delete_spec g (labelSt s i a j) none (some (canon c.sep (init ++ [a]))) st2.coh
-  have hlook := getNode_canon g (labelSt s i a j) hk
-  cases hout3 : delete c none (some (canon c.sep (init ++ [a]))) (labelSt s i a j) with
-  | mk s3 r3 =>
-    rw [hout3] at hd hout
-    obtain ⟨hd1, hd2, hd3, hd4⟩ := hd
-    simp only at hd1 hd2 hd3 hd4
-    have hout : ∀ q, ¬ (init ++ [a]) <+: q → res s3 q = res (labelSt s i a j) q := by
-      intro q hq
-      cases hx : res (labelSt s i a j) (init ++ [a]) with
-      | none => rw [hd3 (fun x hx' => by rw [hlook, hx] at hx'; simp at hx')]
-      | some x => exact (hd2 x _ (by rw [hlook, hx]) hx).1 q hq
-    have st3 : Stage c s init a j i s3 := st2.del hd1 (by rw [hout init hinit]; exact st2.hj)
-    have hr3 : r3 = .ok () := by
-      have := delete_total g st2.coh none (some (canon c.sep (init ++ [a]))) (Or.inr rfl)
-      rw [hout3] at this; exact this
-    cases r3 with
-    | error e => simp at hr3
-    | ok u3 =>
+  obtain ⟨s4, hs4⟩ : ∃ s4, s4 = labelSt s i a j := ⟨_, rfl⟩
+  rw [← hs4] at hout st2
+  have st4 := st2
+  have hnone4 : res s4 (init ++ [a]) = none := by
+    cases hx : res s4 (init ++ [a]) with
+    | none => rfl
+    | some m => have := st4.shrink _ m hx; rw [hnone] at this; simp at this
+  have hfresh4 : ∀ o, (s4.nd i).oid = some o → o ≠ 0 → dget s4.idmap o = none := by
+    intro o ho h0
+    have hid : s4.idmap = s.idmap := by rw [hs4]; simp [labelSt]
+    rw [hid]
+    apply hfresh o _ h0
+    rw [st4.ndi] at ho; exact ho
+  -- add_child
+  rw [addChild_run] at hout
+  have hckj : checkOk s4 j = true := st4.coh.checkOk ⟨_, st4.hj⟩
+  simp only [hckj, Bool.true_eq_false, if_false] at hout
+  cases hcki : checkOk s4 i with
+  | false =>
+    rw [hcki] at hout
+    simp only [if_true] at hout
+    subst hout; exact ⟨st4.corePost hi, fun h => by simp at h, by simp⟩
+  | true =>
+    rw [hcki] at hout
+    simp only [Bool.true_eq_false, if_false] at hout
+    by_cases hdir : (s4.nd j).type = .dir
+    · have hnm : (s4.nd i).name = a := by rw [st4.ndi]
+      have hpr : (s4.nd i).parent = some j := by rw [st4.ndi]
+      rw [if_neg (fun h : (s4.nd j).type ≠ .dir => h hdir), hnm] at hout
       simp only at hout
-      have hnone3 : res s3 (init ++ [a]) = none := by
-        cases hx : res (labelSt s i a j) (init ++ [a]) with
-        | none => rw [hd3 (fun x hx' => by rw [hlook, hx] at hx'; simp at hx')]; exact hx
-        | some x =>
-          have hx0 : x ≠ 0 := by
-            intro e; subst e
-            have := st2.coh.res_root hx
-            simp at this
-          exact (hd2 x _ (by rw [hlook, hx]) hx).2 rfl hx0 _ (List.prefix_refl _)
-      -- delete(oid=node.oid) when the id is truthy
-      have step4 : ∃ s4 r4, (if truthy (s3.nd i).oid then delete c (s3.nd i).oid none else pure ()) s3 = (s4, r4) ∧
-          Stage c s init a j i s4 ∧ r4 = .ok () ∧ (r4 = .ok () → res s4 (init ++ [a]) = none ∧
-            ∀ o, (s4.nd i).oid = some o → o ≠ 0 → dget s4.idmap o = none) := by
-        have hoid3 : (s3.nd i).oid = (s.nd i).oid := by rw [st3.ndi]
-        by_cases ht : truthy (s3.nd i).oid = true
-        · cases ho : (s3.nd i).oid with
-          | none => rw [ho] at ht; simp [truthy] at ht
-          | some o =>
-            have h0 : o ≠ 0 := by intro e; subst e; rw [ho] at ht; simp [truthy] at ht
-            have ht' : truthy (some o) = true := ho ▸ ht
-            rw [if_pos ht']
-            have hcf : ChainFree s3 o init := (hfree o (by rw [← hoid3, ho]) h0).keep (st3.chainKeep hi init)
-            have hd' := delete_spec g s3 (some o) none st3.coh
-            obtain ⟨r, hr, hr1, hr2⟩ := st3.coh.getNode_oid o none
-            cases hout4 : delete c (some o) none s3 with
-            | mk s4 r4 =>
-              rw [hout4] at hd'
-              obtain ⟨e1, e2, e3, e4⟩ := hd'
-              simp only at e1 e2 e3 e4
-              have hj4 : res s4 init = some j := by
-                cases r with
-                | none => rw [e3 (fun x hx => by rw [hr] at hx; simp at hx)]; exact st3.hj
-                | some x =>
-                  obtain ⟨kx, hkx⟩ := (hr1 x rfl).1
-                  rw [(e2 x kx hr hkx).1 init (fun hp => hcf kx hp x hkx (hr1 x rfl).2)]
-                  exact st3.hj
-              have st4 := st3.del e1 hj4
-              have hr4 : r4 = .ok () := by
-                have := delete_total g st3.coh (some o) none (Or.inl rfl)
-                rw [hout4] at this; exact this
-              refine ⟨s4, r4, rfl, st4, hr4, fun hok => ⟨?_, fun o' ho' h0' => ?_⟩⟩
-              · rcases e1.shrink (init ++ [a]) with h | h
-                · exact h
-                · rw [h]; exact hnone3
-              · have : o' = o := by
-                  have : (s4.nd i).oid = some o := by rw [st4.ndi, ← hoid3, ho]
-                  rw [this] at ho'; exact (Option.some.inj ho').symm
-                subst this
-                -- a surviving holder would have been reachable before, hence the deleted one
-                cases hg : dget s4.idmap o' with
-                | none => rfl
-                | some m =>
-                  exfalso
-                  have hm := st4.coh.dget_idmap.1 hg
-                  have hm3 : Reach s3 m := e1.reach hm.1
-                  have ho3 : (s3.nd m).oid = some o' := by rw [← (e1.fields m).2.1]; exact hm.2.1
-                  have hrm := hr2 h0 m hm3 ho3
-                  subst hrm
-                  obtain ⟨km, hkm⟩ := hm3
-                  have hm0 : m ≠ 0 := by
-                    intro e; subst e
-                    exact hcf [] List.nil_prefix 0 rfl ho3
-                  have hgone := (e2 m km hr hkm).2 hok hm0
-                  obtain ⟨q, hq⟩ := hm.1
-                  rcases e1.shrink q with h | h
-                  · rw [h] at hq; simp at hq
-                  · rw [h] at hq
-                    have := st3.coh.res_inj hq hkm
-                    subst this
-                    rw [hgone q (List.prefix_refl _)] at h
-                    rw [hkm] at h; simp at h
-        · simp only [ht, Bool.false_eq_true, if_false]
-          refine ⟨s3, .ok (), rfl, st3, rfl, fun _ => ⟨hnone3, fun o ho h0 => ?_⟩⟩
-          exfalso; apply ht
-          rw [ho]
-          cases o with
-          | zero => exact absurd rfl h0
-          | succ k => rfl
-      obtain ⟨s4, r4, hrun4, st4, hr4, hok4⟩ := step4
-      rw [hrun4] at hout
-      cases r4 with
-      | error e => simp at hr4
-      | ok u4 =>
-        simp only at hout
-        obtain ⟨hnone4, hfresh4⟩ := hok4 rfl
-        -- add_child
-        rw [addChild_run] at hout
-        have hckj : checkOk s4 j = true := st4.coh.checkOk ⟨_, st4.hj⟩
-        simp only [hckj, Bool.true_eq_false, if_false] at hout
-        cases hcki : checkOk s4 i with
-        | false =>
-          rw [hcki] at hout
-          simp only [if_true] at hout
-          subst hout; exact ⟨st4.corePost hi, fun h => by simp at h, by simp⟩
-        | true =>
-          rw [hcki] at hout
-          simp only [Bool.true_eq_false, if_false] at hout
-          by_cases hdir : (s4.nd j).type = .dir
-          · have hnm : (s4.nd i).name = a := by rw [st4.ndi]
-            have hpr : (s4.nd i).parent = some j := by rw [st4.ndi]
-            rw [if_neg (fun h : (s4.nd j).type ≠ .dir => h hdir), hnm] at hout
-            simp only at hout
-            have hdn : dget (s4.nd j).children a = none := by
-              have := hnone4
-              rw [res_snoc, st4.hj] at this
-              exact this
-            have hoidij : (s4.nd i).oid = none ∨ (s4.nd i).oid ≠ (s4.nd j).oid := by
-              unfold checkOk at hcki
-              rw [hpr] at hcki
-              simp only [Bool.and_eq_true, Bool.or_eq_true, Option.isNone_iff_eq_none, bne_iff_ne, ne_eq] at hcki
-              exact hcki.1
-            have x : AttachCtx c s4 init a j i :=
-              ⟨g, st4.coh, st4.sub, st4.hj, hdir, hdn, hnm, hpr, hk a (by simp), hoidij, hfresh4⟩
-            change (match walk c (attachSt s4 j i a) i with
-              | Except.error e => (attachSt s4 j i a, Except.error e)
-              | Except.ok w => reindex c (w.map (fun y : Nat × Option Str => y.1)) (attachSt s4 j i a)) = out at hout
-            -- the nodes `walk` yields are exactly the subtree
-            have hsubok5 : SubOk (attachSt s4 j i a) i := by
-              intro q m hm
-              rw [x.resFrom_sub_attach] at hm
-              have hmj : m ≠ j := fun e => x.j_not_sub q (e ▸ hm)
-              rw [x.nd_attach]; simp only [hmj, if_false]
-              exact st4.sub.subOk q m hm
-            have hwalk : ∀ pth m, m ∈ walkNodes c (attachSt s4 j i a) ((attachSt s4 j i a).heap.length + 1) i pth ↔
-                InSub s4 i m := by
-              intro pth m
-              constructor
-              · intro hm
-                obtain ⟨q, hq⟩ := walkNodes_sound c _ _ _ _ m (fun q y hy => (hsubok5 q y hy).1) hm
-                exact ⟨q, by rw [← x.resFrom_sub_attach]; exact hq⟩
-              · rintro ⟨q, hq⟩
-                apply walkNodes_complete c _ q _ _ _ _ hsubok5 (by rw [x.resFrom_sub_attach]; exact hq)
-                have := st4.sub.depth_lt hq
-                simp only [attachSt, setNd_len]; omega
-            have hoid5 : ∀ m, ((attachSt s4 j i a).nd m).oid = (s4.nd m).oid := fun m => (x.fields_attach m).2.1
-            have hfresh_all : ∀ m, InSub s4 i m → ∀ o, (s4.nd m).oid = some o → o ≠ 0 → dget s4.idmap o = none := by
-              rintro m ⟨q, hq⟩ o ho h0
-              cases q with
-              | nil => simp [resFrom] at hq; subst hq; exact hfresh4 o ho h0
-              | cons k q' => exact st4.sub.ids_fresh (k :: q') m o (by simp) hq ho h0
-            obtain ⟨M', hrun, hkM, hM⟩ := reindex_spec c
-              (walkNodes c (attachSt s4 j i a) ((attachSt s4 j i a).heap.length + 1) i none) (attachSt s4 j i a)
-              (fun m hm o ho h0 hroot => by
-                rw [hoid5] at ho
-                have hf := hfresh_all m ((hwalk none m).1 hm) o ho h0
-                obtain ⟨rr, hrr, hr0⟩ := st4.coh.root_oid
-                have : HC.rootOid (attachSt s4 j i a) = some rr := by
-                  simp only [HC.rootOid, hoid5, hrr]
-                rw [this] at hroot
-                cases hroot
-                have := st4.coh.dget_idmap.2 ⟨Reach.root s4, hrr, hr0⟩
-                rw [hf] at this; simp at this)
-              (fun m hm o ho h0 => by
-                rw [hoid5] at ho
-                exact Or.inl (hfresh_all m ((hwalk none m).1 hm) o ho h0))
-              (fun m1 h1 m2 h2 o o1 o2 h0 => by
-                rw [hoid5] at o1 o2
-                obtain ⟨q1, hq1⟩ := (hwalk none m1).1 h1
-                obtain ⟨q2, hq2⟩ := (hwalk none m2).1 h2
-                exact st4.sub.ids_inj q1 q2 m1 m2 o hq1 hq2 o1 o2 h0)
-              st4.coh.map_keys
-            have hM' : ∀ o m, (o, m) ∈ M' ↔ ((o, m) ∈ s4.idmap ∨ (InSub s4 i m ∧ (s4.nd m).oid = some o ∧ o ≠ 0)) := by
-              intro o m
-              rw [hM o m, hwalk none m, hoid5]
-              rfl
-            have hc6 : Coherent c { attachSt s4 j i a with idmap := M' } := x.coherent M' hkM hM'
-            have hres6 : res ({ attachSt s4 j i a with idmap := M' } : HC) (init ++ [a]) = some i := by
-              rw [AttachCtx.res_with_idmap]; exact x.res_attach_at
-            have hfp : fullPath c (attachSt s4 j i a) i = .ok (some (canon c.sep (init ++ [a]))) := by
-              rw [← hc6.fullPath g hres6]
-              exact (fullPath_congr c (s := attachSt s4 j i a) (s' := { attachSt s4 j i a with idmap := M' }) rfl
-                (fun _ => ⟨rfl, rfl, rfl, rfl⟩) i).symm
-            simp only [walk, hfp] at hout
-            have hlist : (walkAux c (attachSt s4 j i a) ((attachSt s4 j i a).heap.length + 1) i
-                (some (canon c.sep (init ++ [a])))).map (·.1) =
-                walkNodes c (attachSt s4 j i a) ((attachSt s4 j i a).heap.length + 1) i none :=
-              walkNodes_path_irrel c _ _ _ _ _
-            rw [hlist, hrun] at hout
-            subst hout
-            have hsubeq : ∀ m, InSub s4 i m ↔ InSub s i m := fun m =>
-              ⟨fun ⟨q, hq⟩ => ⟨q, by rw [← st4.subres]; exact hq⟩, fun ⟨q, hq⟩ => ⟨q, by rw [st4.subres]; exact hq⟩⟩
-            have hoid_all : ∀ m, (s4.nd m).oid = (s.nd m).oid := fun m => by
-              by_cases e : m = i
-              · subst e; rw [st4.ndi]
-              · exact (st4.fields m e).2
-            refine ⟨⟨hc6, ⟨?_, ?_, ?_, ?_⟩, ?_, ?_, ?_, ?_⟩, fun _ => ⟨hres6, fun q => ?_⟩, by simp⟩
-            · simp only [attachSt, setNd_len]; exact Nat.le_of_eq st4.len.symm
-            · intro m hm hr hE
-              have hmi : m ≠ i := fun e => hE ⟨[], by rw [e]; rfl⟩
-              have hmj : m ≠ j := fun e => hr (e ▸ ⟨_, hj⟩)
-              show (attachSt s4 j i a).nd m = s.nd m
-              rw [x.nd_attach]; simp only [hmj, if_false]
-              exact st4.frame m hr hmi
-            · intro m hm hr
-              rcases (x.reach_attach).1 ((AttachCtx.reach_with_idmap _ _ _).1 hr) with h | h
-              · exact Or.inl (st4.reach_old h)
-              · exact Or.inr ((hsubeq m).1 h)
-            · intro e he
-              rcases (hM' e.1 e.2).1 he with h | ⟨h, _⟩
-              · exact Or.inl (st4.idsub e h)
-              · exact Or.inr ((hsubeq e.2).1 h)
-            · intro q hq m hm
-              rw [AttachCtx.res_with_idmap, x.res_attach_out q (fun hp => hinit (hp.trans hq))] at hm
-              have hs := st4.shrink q m hm
-              have hmi : m ≠ i := fun e => hi (e ▸ ⟨q, hs⟩)
-              refine Or.inl ⟨hs, ?_⟩
-              show ((attachSt s4 j i a).nd m).oid = _
-              rw [hoid5]; exact (st4.fields m hmi).2
-            · show ((attachSt s4 j i a).nd i).oid = _ ∧ ((attachSt s4 j i a).nd i).type = _
-              rw [hoid5, (x.fields_attach i).1, st4.ndi]; exact ⟨rfl, rfl⟩
-            · intro q m hm
-              rw [AttachCtx.res_with_idmap] at hm
-              by_cases hp : (init ++ [a]) <+: q
-              · obtain ⟨r, rfl⟩ := hp
-                rw [x.res_attach_in] at hm
-                exact Or.inr ((hsubeq m).1 ⟨r, hm⟩)
-              · rw [x.res_attach_out q hp] at hm
-                exact Or.inl (st4.shrink q m hm)
-            · intro m
-              show ((attachSt s4 j i a).nd m).oid = _
-              rw [hoid5]; exact hoid_all m
-            · have e1 : resFrom ({ attachSt s4 j i a with idmap := M' } : HC) i q = resFrom (attachSt s4 j i a) i q :=
-                resFrom_congr (s := attachSt s4 j i a) (s' := { attachSt s4 j i a with idmap := M' }) q i (fun _ _ _ => rfl)
-              exact e1.trans (by rw [x.resFrom_sub_attach, st4.subres])
-          · rw [if_pos hdir] at hout
-            subst hout
-            exact ⟨st4.corePost hi, fun h => by simp at h, by simp⟩
+      have hdn : dget (s4.nd j).children a = none := by
+        have := hnone4
+        rw [res_snoc, st4.hj] at this
+        exact this
+      have hoidij : (s4.nd i).oid = none ∨ (s4.nd i).oid ≠ (s4.nd j).oid := by
+        unfold checkOk at hcki
+        rw [hpr] at hcki
+        simp only [Bool.and_eq_true, Bool.or_eq_true, Option.isNone_iff_eq_none, bne_iff_ne, ne_eq] at hcki
+        exact hcki.1
+      have x : AttachCtx c s4 init a j i :=
+        ⟨g, st4.coh, st4.sub, st4.hj, hdir, hdn, hnm, hpr, hk a (by simp), hoidij, hfresh4⟩
+      change (match walk c (attachSt s4 j i a) i with
+        | Except.error e => (attachSt s4 j i a, Except.error e)
+        | Except.ok w => reindex c (w.map (fun y : Nat × Option Str => y.1)) (attachSt s4 j i a)) = out at hout
+      -- the nodes `walk` yields are exactly the subtree
+      have hsubok5 : SubOk (attachSt s4 j i a) i := by
+        intro q m hm
+        rw [x.resFrom_sub_attach] at hm
+        have hmj : m ≠ j := fun e => x.j_not_sub q (e ▸ hm)
+        rw [x.nd_attach]; simp only [hmj, if_false]
+        exact st4.sub.subOk q m hm
+      have hwalk : ∀ pth m, m ∈ walkNodes c (attachSt s4 j i a) ((attachSt s4 j i a).heap.length + 1) i pth ↔
+          InSub s4 i m := by
+        intro pth m
+        constructor
+        · intro hm
+          obtain ⟨q, hq⟩ := walkNodes_sound c _ _ _ _ m (fun q y hy => (hsubok5 q y hy).1) hm
+          exact ⟨q, by rw [← x.resFrom_sub_attach]; exact hq⟩
+        · rintro ⟨q, hq⟩
+          apply walkNodes_complete c _ q _ _ _ _ hsubok5 (by rw [x.resFrom_sub_attach]; exact hq)
+          have := st4.sub.depth_lt hq
+          simp only [attachSt, setNd_len]; omega
+      have hoid5 : ∀ m, ((attachSt s4 j i a).nd m).oid = (s4.nd m).oid := fun m => (x.fields_attach m).2.1
+      have hfresh_all : ∀ m, InSub s4 i m → ∀ o, (s4.nd m).oid = some o → o ≠ 0 → dget s4.idmap o = none := by
+        rintro m ⟨q, hq⟩ o ho h0
+        cases q with
+        | nil => simp [resFrom] at hq; subst hq; exact hfresh4 o ho h0
+        | cons k q' => exact st4.sub.ids_fresh (k :: q') m o (by simp) hq ho h0
+      obtain ⟨M', hrun, hkM, hM⟩ := reindex_spec c
+        (walkNodes c (attachSt s4 j i a) ((attachSt s4 j i a).heap.length + 1) i none) (attachSt s4 j i a)
+        (fun m hm o ho h0 hroot => by
+          rw [hoid5] at ho
+          have hf := hfresh_all m ((hwalk none m).1 hm) o ho h0
+          obtain ⟨rr, hrr, hr0⟩ := st4.coh.root_oid
+          have : HC.rootOid (attachSt s4 j i a) = some rr := by
+            simp only [HC.rootOid, hoid5, hrr]
+          rw [this] at hroot
+          cases hroot
+          have := st4.coh.dget_idmap.2 ⟨Reach.root s4, hrr, hr0⟩
+          rw [hf] at this; simp at this)
+        (fun m hm o ho h0 => by
+          rw [hoid5] at ho
+          exact Or.inl (hfresh_all m ((hwalk none m).1 hm) o ho h0))
+        (fun m1 h1 m2 h2 o o1 o2 h0 => by
+          rw [hoid5] at o1 o2
+          obtain ⟨q1, hq1⟩ := (hwalk none m1).1 h1
+          obtain ⟨q2, hq2⟩ := (hwalk none m2).1 h2
+          exact st4.sub.ids_inj q1 q2 m1 m2 o hq1 hq2 o1 o2 h0)
+        st4.coh.map_keys
+      have hM' : ∀ o m, (o, m) ∈ M' ↔ ((o, m) ∈ s4.idmap ∨ (InSub s4 i m ∧ (s4.nd m).oid = some o ∧ o ≠ 0)) := by
+        intro o m
+        rw [hM o m, hwalk none m, hoid5]
+        rfl
+      have hc6 : Coherent c { attachSt s4 j i a with idmap := M' } := x.coherent M' hkM hM'
+      have hres6 : res ({ attachSt s4 j i a with idmap := M' } : HC) (init ++ [a]) = some i := by
+        rw [AttachCtx.res_with_idmap]; exact x.res_attach_at
+      have hfp : fullPath c (attachSt s4 j i a) i = .ok (some (canon c.sep (init ++ [a]))) := by
+        rw [← hc6.fullPath g hres6]
+        exact (fullPath_congr c (s := attachSt s4 j i a) (s' := { attachSt s4 j i a with idmap := M' }) rfl
+          (fun _ => ⟨rfl, rfl, rfl, rfl⟩) i).symm
+      simp only [walk, hfp] at hout
+      have hlist : (walkAux c (attachSt s4 j i a) ((attachSt s4 j i a).heap.length + 1) i
+          (some (canon c.sep (init ++ [a])))).map (·.1) =
+          walkNodes c (attachSt s4 j i a) ((attachSt s4 j i a).heap.length + 1) i none :=
+        walkNodes_path_irrel c _ _ _ _ _
+      rw [hlist, hrun] at hout
+      subst hout
+      have hsubeq : ∀ m, InSub s4 i m ↔ InSub s i m := fun m =>
+        ⟨fun ⟨q, hq⟩ => ⟨q, by rw [← st4.subres]; exact hq⟩, fun ⟨q, hq⟩ => ⟨q, by rw [st4.subres]; exact hq⟩⟩
+      have hoid_all : ∀ m, (s4.nd m).oid = (s.nd m).oid := fun m => by
+        by_cases e : m = i
+        · subst e; rw [st4.ndi]
+        · exact (st4.fields m e).2
+      refine ⟨⟨hc6, ⟨?_, ?_, ?_, ?_⟩, ?_, ?_, ?_⟩, fun _ => ⟨hres6, fun q => ?_⟩, by simp⟩
+      · simp only [attachSt, setNd_len]; exact Nat.le_of_eq st4.len.symm
+      · intro m hm hr hE
+        have hmi : m ≠ i := fun e => hE ⟨[], by rw [e]; rfl⟩
+        have hmj : m ≠ j := fun e => hr (e ▸ ⟨_, hj⟩)
+        show (attachSt s4 j i a).nd m = s.nd m
+        rw [x.nd_attach]; simp only [hmj, if_false]
+        exact st4.frame m hr hmi
+      · intro m hm hr
+        rcases (x.reach_attach).1 ((AttachCtx.reach_with_idmap _ _ _).1 hr) with h | h
+        · exact Or.inl (st4.reach_old h)
+        · exact Or.inr ((hsubeq m).1 h)
+      · intro e he
+        rcases (hM' e.1 e.2).1 he with h | ⟨h, _⟩
+        · exact Or.inl (st4.idsub e h)
+        · exact Or.inr ((hsubeq e.2).1 h)
+      · show ((attachSt s4 j i a).nd i).oid = _ ∧ ((attachSt s4 j i a).nd i).type = _
+        rw [hoid5, (x.fields_attach i).1, st4.ndi]; exact ⟨rfl, rfl⟩
+      · intro q m hm
+        rw [AttachCtx.res_with_idmap] at hm
+        by_cases hp : (init ++ [a]) <+: q
+        · obtain ⟨r, rfl⟩ := hp
+          rw [x.res_attach_in] at hm
+          exact Or.inr ⟨r, rfl, by rw [← st4.subres]; exact hm⟩
+        · rw [x.res_attach_out q hp] at hm
+          exact Or.inl (st4.shrink q m hm)
+      · intro m
+        show ((attachSt s4 j i a).nd m).oid = _
+        rw [hoid5]; exact hoid_all m
+      · have e1 : resFrom ({ attachSt s4 j i a with idmap := M' } : HC) i q = resFrom (attachSt s4 j i a) i q :=
+          resFrom_congr (s := attachSt s4 j i a) (s' := { attachSt s4 j i a with idmap := M' }) q i (fun _ _ _ => rfl)
+        exact e1.trans (by rw [x.resFrom_sub_attach, st4.subres])
+    · rw [if_pos hdir] at hout
+      subst hout
+      exact ⟨st4.corePost hi, fun h => by simp at h, by simp⟩
 
 end CS.HCache
